@@ -88,6 +88,10 @@ pub struct Scenario {
     /// does to later binds and connects); never generated
     #[serde(default)]
     pub no_count_check: bool,
+    /// every `Accept` action is a task of its own (own waker) parked in accept() on the listener, instead
+    /// of one more accept() call of the listener's single acceptor task
+    #[serde(default)]
+    pub acceptor_tasks: bool,
 }
 
 pub struct C13;
@@ -124,6 +128,8 @@ struct LState {
     sock: Option<TcpListener>,
     armed: usize,
     flag: WakeFlag,
+    /// acceptor tasks of their own (Scenario::acceptor_tasks), in arming order
+    tasks: Vec<WakeFlag>,
     dropped_at: Option<u64>,
     bound: bool,
 }
@@ -246,7 +252,14 @@ impl<'a> Sim<'a> {
                 }
             }
             Act::Accept { l } => {
-                if self.ls[*l].sock.is_some() {
+                if self.ls[*l].sock.is_some() && self.sc.acceptor_tasks {
+                    self.ls[*l].tasks.push(WakeFlag::new());
+                    if self.ls[*l].tasks.len() >= 2 {
+                        self.rep.probes.inc("two_acceptor_tasks_parked_on_one_listener");
+                    }
+                    self.log.ev(format!("r{} l{l}: acceptor task parked in accept", self.round));
+                    self.poll_accepts();
+                } else if self.ls[*l].sock.is_some() {
                     self.ls[*l].armed += 1;
                     self.ls[*l].flag.set();
                     self.log.ev(format!("r{} l{l}: accept armed", self.round));
@@ -303,6 +316,7 @@ impl<'a> Sim<'a> {
                     self.d.on(0, || drop(s));
                     self.ls[*l].bound = false;
                     self.ls[*l].armed = 0;
+                    self.ls[*l].tasks.clear();
                     self.ls[*l].dropped_at = Some(self.round);
                     self.log.ev(format!("r{} l{l}: listener dropped", self.round));
                     self.log.tag("droplistener");
@@ -381,6 +395,33 @@ impl<'a> Sim<'a> {
 
     fn poll_accepts(&mut self) {
         for l in 0..self.ls.len() {
+            // acceptor tasks of their own: each is polled only when its own waker was woken
+            let mut i = 0;
+            while i < self.ls[l].tasks.len() && self.ls[l].sock.is_some() {
+                if !self.ls[l].tasks[i].take() {
+                    i += 1;
+                    continue;
+                }
+                let r = {
+                    let ll = &self.ls[l];
+                    self.d.with_cx(0, &ll.tasks[i].waker, |cx| ll.sock.as_ref().unwrap().poll_accept(cx))
+                };
+                match r {
+                    Poll::Ready(Ok((s, peer))) => {
+                        // the task goes on to serve its connection: it does not park again
+                        self.ls[l].tasks.remove(i);
+                        self.accepted(l, s, peer);
+                        if self.stopped() {
+                            return;
+                        }
+                    }
+                    Poll::Ready(Err(e)) => {
+                        self.ls[l].tasks.remove(i);
+                        self.log.ev(format!("r{} l{l}: accept -> {}", self.round, ek(&e)));
+                    }
+                    Poll::Pending => i += 1,
+                }
+            }
             while self.ls[l].armed > 0 && self.ls[l].sock.is_some() {
                 if !self.ls[l].flag.take() {
                     break;
@@ -1009,7 +1050,7 @@ fn execute(sim: &mut Sim<'_>) {
         let addr = SocketAddr::new(parse_ip(&spec.ip), spec.port);
         match sim.d.once(0, TcpListener::bind(addr)) {
             Some(Ok(s)) => {
-                sim.ls.push(LState { addr, sock: Some(s), armed: 0, flag: WakeFlag::new(), dropped_at: None, bound: true });
+                sim.ls.push(LState { addr, sock: Some(s), armed: 0, flag: WakeFlag::new(), tasks: Vec::new(), dropped_at: None, bound: true });
                 sim.log.ev(format!("l{l}: listening at {addr} backlog {}", sc.cfg.backlog));
             }
             other => {
@@ -1279,7 +1320,7 @@ fn gen_scenario_raw(rng: &mut Rng, tier: Tier) -> Scenario {
             }
         }
     }
-    Scenario { guarded, cfg, hosts, listeners, conns, timeline: tl, faults, reorder: rng.chance(1, 8), reuse: rng.chance(1, 3), no_count_check: false }
+    Scenario { guarded, cfg, hosts, listeners, conns, timeline: tl, faults, reorder: rng.chance(1, 8), reuse: rng.chance(1, 3), no_count_check: false, acceptor_tasks: rng.chance(1, 3) }
 }
 
 /// Backlog pressure: more connectors than the backlog admits, nobody accepts until the late
@@ -1320,7 +1361,7 @@ fn gen_pressure(rng: &mut Rng, guarded: bool, mut cfg: NetCfg, hosts: Vec<Vec<St
         ta += rng.range(0, 2) as u32;
     }
     tl.sort_by_key(|x| x.0);
-    Scenario { guarded, cfg, hosts, listeners, conns, timeline: tl, faults: Vec::new(), reorder: false, reuse: rng.chance(1, 4), no_count_check: false }
+    Scenario { guarded, cfg, hosts, listeners, conns, timeline: tl, faults: Vec::new(), reorder: false, reuse: rng.chance(1, 4), no_count_check: false, acceptor_tasks: rng.chance(1, 3) }
 }
 
 impl Property for C13 {
@@ -1534,6 +1575,7 @@ mod tests {
             reorder: false,
             reuse: true,
             no_count_check: false,
+            acceptor_tasks: false,
         }
     }
 
